@@ -1,3 +1,5 @@
+import Generated.ViewCache
+
 /-! Object graph of `BinaryQuadraticModel.spin` / `.binary` (property C02, round 8).
 
 `binary_quadratic_model.py`:
@@ -22,6 +24,9 @@
 `VartypeView`, shared, not copied) and `_vartype`; `change_vartype` only re-assigns `_vartype`; every `@view_method`
 passes through to `self.data` when `self._vartype == self.data.vartype()`, else converts (`energies`: the sample values are
 mapped, then `self.data.energies`).
+
+The shape of the two properties (test of the cached object's vartype, the two cache links) is REGENERATED from the source by
+`harness/translators/c02_view_cache.py` (`Generated/ViewCache.lean`); `getView` / `stack` are defined over those flags.
 
 State: the data cells (cell 0 = the base data with its vartype, cell k+1 = `views[k]` = a `VartypeView` over an earlier cell)
 and the model objects (their `data` cell and the two cache attributes).  Everything the cache logic decides — which object
@@ -73,11 +78,13 @@ def stack (h : Heap) (o : Nat) (vt : VT) : Heap × Nat :=
   ({ h with
       views := h.views ++ [((h.objs.getD o { data := 0 }).data, vt)],
       objs := (h.objs.set o (match vt with
-                | .binary => { (h.objs.getD o { data := 0 }) with cBinary := some h.objs.length }
-                | .spin => { (h.objs.getD o { data := 0 }) with cSpin := some h.objs.length }))
+                | .binary => { (h.objs.getD o { data := 0 }) with
+                    cBinary := if Generated.ViewCache.cachesNew then some h.objs.length else (h.objs.getD o { data := 0 }).cBinary }
+                | .spin => { (h.objs.getD o { data := 0 }) with
+                    cSpin := if Generated.ViewCache.cachesNew then some h.objs.length else (h.objs.getD o { data := 0 }).cSpin }))
               ++ [match vt with
-                | .binary => ({ data := h.views.length + 1, cSpin := some o } : Obj)
-                | .spin => ({ data := h.views.length + 1, cBinary := some o } : Obj)] },
+                | .binary => ({ data := h.views.length + 1, cSpin := if Generated.ViewCache.linksBack then some o else none } : Obj)
+                | .spin => ({ data := h.views.length + 1, cBinary := if Generated.ViewCache.linksBack then some o else none } : Obj)] },
    h.objs.length)
 
 /-- `obj.binary` (`vt = .binary`) / `obj.spin` (`vt = .spin`): the new heap and the object returned -/
@@ -85,7 +92,7 @@ def getView (h : Heap) (o : Nat) (vt : VT) : Heap × Nat :=
   if h.objVt o = vt then (h, o)
   else
     match (match vt with | .binary => (h.objs.getD o { data := 0 }).cBinary | .spin => (h.objs.getD o { data := 0 }).cSpin) with
-    | some b => if h.objVt b = vt then (h, b) else h.stack o vt
+    | some b => if Generated.ViewCache.checksCachedVartype = false ∨ h.objVt b = vt then (h, b) else h.stack o vt
     | none => h.stack o vt
 
 /-- `obj.change_vartype(vt, inplace=True)`: on the base data the model is converted in place (its vartype changes, the
